@@ -237,22 +237,26 @@ func (c *SingleDestinationRoundTripper) OpenRequestStream(ctx context.Context) (
 // cancelingReader reads from the io.Reader.
 // It cancels writing on the stream if any error other than io.EOF occurs.
 type cancelingReader struct {
-	r   io.Reader
-	str Stream
+	r     io.Reader
+	str   Stream
+	onErr func(error) // told about the read error before the stream is reset
 }
 
 func (r *cancelingReader) Read(b []byte) (int, error) {
 	n, err := r.r.Read(b)
 	if err != nil && err != io.EOF {
+		if r.onErr != nil {
+			r.onErr(err)
+		}
 		r.str.CancelWrite(quic.StreamErrorCode(ErrCodeRequestCanceled))
 	}
 	return n, err
 }
 
-func (c *SingleDestinationRoundTripper) sendRequestBody(str Stream, body io.ReadCloser, dumps []*dump.Dumper) error {
+func (c *SingleDestinationRoundTripper) sendRequestBody(str Stream, body io.ReadCloser, dumps []*dump.Dumper, onReadErr func(error)) error {
 	defer body.Close()
 	buf := make([]byte, bodyCopyBufferSize)
-	sr := &cancelingReader{str: str, r: body}
+	sr := &cancelingReader{str: str, r: body, onErr: onReadErr}
 	var w io.Writer = str
 	for _, d := range dumps {
 		if d.RequestBody() {
@@ -279,13 +283,23 @@ func (c *SingleDestinationRoundTripper) doRequest(req *http.Request, str *reques
 		closeRequestBody(req) // the goroutine that would close it is never started
 		return nil, err
 	}
+	// bodyErr receives the error of a request body that could not be read to its end, before the
+	// stream's send side is reset (see cancelingReader); errors of writing to the stream - the peer
+	// answered early and stopped the upload - are not errors of the exchange
+	bodyErr := make(chan error, 1)
 	if req.Body == nil {
 		str.Close()
 	} else {
 		// send the request body asynchronously
 		go func() {
 			dumps := dump.GetDumpers(req.Context(), c.Dump)
-			if err := c.sendRequestBody(str, req.Body, dumps); err != nil {
+			onReadErr := func(err error) {
+				select {
+				case bodyErr <- err:
+				default:
+				}
+			}
+			if err := c.sendRequestBody(str, req.Body, dumps, onReadErr); err != nil {
 				if c.Debugf != nil {
 					c.Debugf("error writing request: %s", err.Error())
 				}
@@ -323,6 +337,14 @@ func (c *SingleDestinationRoundTripper) doRequest(req *http.Request, str *reques
 			continue
 		}
 		break
+	}
+	// an upload that broke off is an error, as on HTTP/1.1 and HTTP/2, whatever the server
+	// answered to the reset stream
+	select {
+	case err := <-bodyErr:
+		str.CancelRead(quic.StreamErrorCode(ErrCodeRequestCanceled))
+		return nil, err
+	default:
 	}
 	connState := c.hconn.ConnectionState().TLS
 	res.TLS = &connState
